@@ -22,6 +22,9 @@ class UnspecifiedError(Exception):
 
 CALLS = []
 TARGET = None
+# cython-sgio raises CheckConditionError only when sense bytes were written; another build of the binding may report
+# CHECK CONDITION with an empty sense buffer: the harness switches this on for those cases (transport "sgio_e")
+CC_WITHOUT_SENSE = False
 
 
 def reset(target=None):
@@ -50,6 +53,6 @@ def execute(file, cdb, dataout, datain, *args, **kwargs):
     rec["status"] = status
     if status == 0:
         return 0
-    if status == 2 and sense:       # cython-sgio: CheckConditionError only when sense bytes were written
-        raise CheckConditionError(sense)
+    if status == 2 and (sense or CC_WITHOUT_SENSE):       # cython-sgio: CheckConditionError only when sense bytes were written
+        raise CheckConditionError(sense or b"")
     raise UnspecifiedError()
